@@ -26,7 +26,7 @@ var qBoundary = map[string][]rm.Val{
 	"i":  {rm.Null, rm.Int(-5), rm.Int(4), rm.Int(math.MinInt64), rm.Int(math.MaxInt64), rm.Int(math.MaxInt64 - 1), rm.Int(1 << 53), rm.Int(1<<53 + 1)}, // the last three: distinct integers that coincide as float64
 	"f":  {rm.Null, rm.Flt(-4.5), rm.Flt(4.5), rm.Flt(5e-324), rm.Flt(math.MaxFloat64)},
 	"nn": {rm.Null, rm.Int(-5), rm.Int(4), rm.Int(math.MinInt32), rm.Int(math.MaxInt32)}, // the int32-typed field (bolt store only)
-	"t":  {rm.Null, rm.Time(time.Date(1020, 3, 4, 5, 6, 7, 0, time.UTC)), rm.Time(qT0), rm.Time(qT0.Add(time.Nanosecond)), rm.Time(time.Date(2321, 3, 4, 5, 6, 7, 0, time.UTC))},
+	"t":  {rm.Null, rm.Time(time.Time{}) /* the zero instant is a value, not null */, rm.Time(time.Date(1020, 3, 4, 5, 6, 7, 0, time.UTC)), rm.Time(qT0), rm.Time(qT0.Add(time.Nanosecond)), rm.Time(time.Date(2321, 3, 4, 5, 6, 7, 0, time.UTC))},
 }
 
 type boundaryQuery struct {
